@@ -86,12 +86,14 @@ scalar Tag
 scalar Plain
 scalar Loose
 scalar Code
+scalar Span
+scalar Day
 interface Node { id: ID! at: Stamp }
 type Event implements Node { id: ID! at: Stamp when: Stamp! maybe: Stamp times: [Stamp!] grid: [[Stamp]] tag: Tag plain: Plain loose: Loose code: Code inner: Event }
 type Other implements Node { id: ID! at: Stamp }
-input Window { start: Stamp! end: Stamp stamps: [Stamp!] nested: Window tag: Tag }
+input Window { start: Stamp! end: Stamp stamps: [Stamp!] nested: Window tag: Tag span: Span days: [Day!] }
 union Result = Event | Other
-type Query { event(at: Stamp, after: Stamp, w: Window, ws: [Window!], many: [Stamp], tag: Tag): Event node: Node search: [[Result]] }
+type Query { event(at: Stamp, after: Stamp, w: Window, ws: [Window!], many: [Stamp], tag: Tag, span: Span, day: Day): Event node: Node search: [[Result]] }
 """
 QUERIES_FULL = """
 fragment Times on Event { when times at }
@@ -101,6 +103,7 @@ query GetEvent($after: Stamp!, $w: Window, $ws: [Window!], $tag: Tag!) {
 }
 query GetNode { node { id at ... on Event { when } } }
 query Second($after: Stamp!) { event(after: $after) { id } }
+query Third($span: Span!, $day: Day!, $w: Window) { event(span: $span, day: $day, w: $w) { id } }
 query Search { search { __typename ... on Event { at when } ... on Other { at } } }
 """
 HELPER_SRC = '''
@@ -149,7 +152,8 @@ def _scalar_positions(flavour, extra_opts, client_kw):
             g = generate_client(SCHEMA_FULL, QUERIES_FULL, **extra_opts, scalars={
                 "Stamp": {"type": f"{helper}.Stamp", "parse": f"{helper}.parse_stamp", "serialize": f"{helper}.ser_stamp"},
                 "Tag": {"type": "str", "parse": f"{helper}.parse_tag", "serialize": f"{helper}.ser_tag"},
-                "Plain": {"type": "int"}, "Code": {"type": f"{helper}.Code", "parse": f"{helper}.Code"}})
+                "Plain": {"type": "int"}, "Code": {"type": f"{helper}.Code", "parse": f"{helper}.Code"},
+                "Span": {"type": "datetime.timedelta"}, "Day": {"type": "datetime.date"}})
             hm = importlib.reload(__import__(helper))
             mod = g.module()
             it = g.module("input_types")
@@ -218,6 +222,14 @@ def _scalar_positions(flavour, extra_opts, client_kw):
                  parses_full, read_full)
         scenario("second-operation-with-the-same-scalar", "second", dict(after=S("b")), {"event": {"id": "2"}},
                  {"after": "S:b"}, [("ser_stamp", S("b"))], [], lambda res: [] if res.event.id == "2" else ["id"])
+        # type-only scalars whose Python type is not a JSON type travel in pydantic's wire form, from every client
+        import datetime as _dt
+        scenario("type-only-scalars-of-non-json-python-types", "third",
+                 dict(span=_dt.timedelta(hours=1, minutes=30), day=_dt.date(2020, 1, 2),
+                      w=it.Window(start=S("s9"), span=_dt.timedelta(seconds=5), days=[_dt.date(2021, 3, 4)])),
+                 {"event": {"id": "3"}},
+                 {"span": "PT1H30M", "day": "2020-01-02", "w": {"start": "S:s9", "span": "PT5S", "days": ["2021-03-04"]}},
+                 [("ser_stamp", S("s9"))], [], lambda res: [] if res.event.id == "3" else ["id"])
         scenario("interface-position-and-null", "get_node", {}, {"node": {"__typename": "Event", "id": "1", "at": None, "when": "nw"}},
                  {}, [], [("parse_stamp", "nw")], lambda res: [] if res.node.at is None and res.node.when == S("P:nw") else ["node"])
         scenario("nested-list-of-union-members", "search", {},
